@@ -235,6 +235,9 @@ def add_obligations(pack, ss, tier, pid='C02'):
                'field besides those named in the contract of Model.get_md5 (v_str, v_iter, e_str, diag_eps, service v_str / sequential, '
                'exported flags, names)')
     run_contracts(pack, [(fg_update(pid, 'f'), None, replay_fg_update('f')), (fg_update(pid, 'g'), None, replay_fg_update('g')), (refresh_inputs_arg(pid),), (find_stale(pid), None, replay_find_stale), (undill(pid), None, replay_find_stale), (generate_pycode_tail(pid),), (get_md5(pid), None, replay_get_md5), (refresh_inputs(pid), None, replay_refresh_inputs)])
+    # the one non-numpy function the generated modules call: it must mean what the expression front end takes it to mean
+    from contracts import fn_npfunc as NF
+    run_contracts(pack, [(NF.safe_div(pid, False), None, NF.replay_safe_div), (NF.safe_div(pid, True), None, NF.replay_safe_div)])
 
 
 FSP = 'andes/core/symprocessor.py'
